@@ -635,7 +635,8 @@ class OGen:
     members = list(r.choice(self._COMPAT)) if compat else []
     if compat and r.random() < 0.3:
       members += [m for m in r.choice(self._COMPAT) if m not in members]
-    pool = self._PLAIN + classes[:4]
+    # class members make pytype instantiate the class for every such parameter (expensive): rare
+    pool = self._PLAIN + ([r.choice(classes)] if classes and r.random() < 0.15 else [])
     for m in r.sample(pool, r.randint(2, 3)):
       if m not in members:
         members.append(m)
@@ -669,7 +670,7 @@ class OGen:
               f"  {self.name()}: List[{u()[0]}] = []",
               f"  def __init__(self, {self.name()}: {a} = {u()[1]}, *a, **kw) -> None:",
               "    super().__init__(*a, **kw)" if base else "    pass",
-              f"    self.{self.name()}: {u()[0]} = {self.name() if False else 'None'}",
+              f"    self.{self.name()}: {u()[0]} = None",
               f"  def {self.name()}(self, {self.name()}: {b} = {bl}, *, {self.name()}: {k} = {kl}) -> {ret}:",
               f"    return {rl}",
               "  @staticmethod",
